@@ -283,7 +283,7 @@ let cmd_lattice t =
   let outv v = out_list (List.map fst v); out_str ";"; out_list (List.map snd v) in
   outv a; out_sep (); outv b
 
-(* angular dim x[dim] y[dim] : cosine | alternative_cosine | dot | alternative_dot, each as  class r q  (class 0 zero, 1 one, 2 max, 3 ratio) *)
+(* angular dim x[dim] y[dim] : cosine | alternative_cosine | dot | alternative_dot | sparse_cosine | sparse_alternative_cosine (on the CSR encodings), each as  class r q  (class 0 zero, 1 one, 2 max, 3 ratio) *)
 let cmd_angular t =
   let dim = next_int t in
   let x = next_list t dim in
@@ -293,7 +293,9 @@ let cmd_angular t =
     | AOne -> out_int 1; out_int 0; out_int 0
     | AMax -> out_int 2; out_int 0; out_int 0
     | ARatio (r, q) -> out_int 3; out_z r; out_z q) in
-  o (cosine x y); out_sep (); o (alternative_cosine x y); out_sep (); o (dot x y); out_sep (); o (alternative_dot x y)
+  o (cosine x y); out_sep (); o (alternative_cosine x y); out_sep (); o (dot x y); out_sep (); o (alternative_dot x y); out_sep ();
+  let a = sparsify Z0 x in let b = sparsify Z0 y in
+  o (sparse_cosine a b); out_sep (); o (sparse_alternative_cosine a b)
 
 (* binmetrics dim x[dim] y[dim] : all count-based metrics as num den pairs *)
 let cmd_binmetrics t =
